@@ -5,6 +5,7 @@ package main
 import (
 	"fmt"
 	"os"
+	"time"
 	"sort"
 )
 
@@ -315,6 +316,7 @@ func (r *Run) query(extra *Term, install bool) Res {
 	s := w.solver
 	var res Res
 	var core []*Term
+	tq := time.Now()
 	if w.ex.cfg.SliceOnly {
 		s.Push()
 		for _, t := range conj {
@@ -346,6 +348,15 @@ func (r *Run) query(extra *Term, install bool) Res {
 		core = append(core, extra)
 	}
 	w.nQueries++
+	if d := time.Since(tq); d > 2*time.Second && os.Getenv("GOSYM_SLOWQ") != "" {
+		if p := os.Getenv("GOSYM_SLOWQ_DUMP"); p != "" {
+			os.WriteFile(p, []byte(w.standaloneScript(append(append([]*Term(nil), conj...), extra))), 0644)
+		}
+		fmt.Fprintf(os.Stderr, "SLOWQ %.1fs res=%v nconj=%d extra=%s\n", d.Seconds(), res, len(conj), extra.Deep(14))
+		for _, cj := range conj {
+			fmt.Fprintf(os.Stderr, "   conj %s\n", cj.Deep(8))
+		}
+	}
 	if s.restarted {
 		s.restarted = false
 		r.solverOpen = false
